@@ -335,9 +335,9 @@ class Hooks:
                 if ok:
                     st = real.models[op["slot"]]
                     ok = st.rbm_am is mod and ptrs(st.rbm_am) == ptrs(mod)
-                    ok = ok and st.__dict__["num_visible"] == mod.num_visible and st.__dict__["num_hidden"] == mod.num_hidden
+                    ok = ok and st.num_visible == mod.num_visible and st.num_hidden == mod.num_hidden
                     if op["kind"] == "dens":
-                        ok = ok and st.__dict__["num_aux"] == mod.num_aux
+                        ok = ok and st.num_aux == mod.num_aux
                     # ... whatever sizes were passed alongside the module; the module itself keeps its sizes, shapes and contents
                     ok = ok and net_sizes(mod) == pre["module_sizes"] and so.nets_equal(net_snap(mod), pre["module"])
                     if len(st.networks) == 2:
@@ -352,7 +352,7 @@ class Hooks:
                 ctx.oracle("module branch: amplitude network IS the module (parameters and sizes, whatever sizes are passed alongside it), "
                            "phase network an independent equal copy", ok, cs,
                            detail={"err": err, "sizes_passed": given, "module_sizes": pre["module_sizes"],
-                                   "state_sizes": None if err is not None else [real.models[op["slot"]].__dict__.get(k) for k in ("num_visible", "num_hidden", "num_aux")]},
+                                   "state_sizes": None if err is not None else [getattr(real.models[op["slot"]], k, None) for k in ("num_visible", "num_hidden", "num_aux")]},
                            sig="constructFrom/module", theorem="C20_module, C20_module_sizes_from_module, C20_module_args_ignored")
         if t == "write" and err is None:
             st = real.models[op["slot"]]
